@@ -1386,3 +1386,95 @@ func runListener(r *common.Run, ops []string, class string) {
 	}
 	r.Case(l, true, class)
 }
+
+// runReaders: k goroutines are parked in Read on an empty stream (each between its
+// empty check and its wait, at the ibb.read.wait yield point); then a close by the
+// peer or locally, or data followed by a close, happens; then all are released.
+// Every Read must return within the watchdog: one signal has to wake them all.
+func runReaders(r *common.Run, k int, events string) {
+	p, err := newPeer()
+	if err != nil {
+		return
+	}
+	defer p.stop()
+	ln := p.h.Listen(p.rs.S)
+	acc := make(chan net.Conn, 1)
+	go func() { c, _ := ln.Accept(); acc <- c }()
+	p.feed(fmt.Sprintf(`<iq xmlns="jabber:client" type="set" id="o1" from="%s" to="me@example.net/h"><open xmlns="http://jabber.org/protocol/ibb" sid="S" block-size="16" stanza="iq"/></iq>`, peerJID))
+	var conn net.Conn
+	select {
+	case conn = <-acc:
+	case <-time.After(watchdog):
+		return
+	}
+	p.pump(func() bool { return p.replies["o1"] != "" })
+	type res struct {
+		n   int
+		err error
+	}
+	ch := make(chan res, k)
+	var skipped []c06.Ev
+	for i := 0; i < k; i++ {
+		label := fmt.Sprintf("rd%d", i)
+		p.ctl.Go(label, func() {
+			b := make([]byte, 64)
+			n, err := conn.Read(b)
+			ch <- res{n, err}
+		})
+		if _, ok := p.ctl.Wait(watchdog, func(e c06.Ev) bool { return e.Who == label && e.What == "park:ibb.read.wait" }, &skipped); !ok {
+			r.Notes = append(r.Notes, "readers: a reader did not reach the yield point")
+			return
+		}
+	}
+	var toks []string
+	for _, ev := range strings.Split(events, ",") {
+		switch ev {
+		case "c": // the peer closes
+			toks = append(toks, "C")
+			p.feed(fmt.Sprintf(`<iq xmlns="jabber:client" type="set" id="pc" from="%s"><close xmlns="http://jabber.org/protocol/ibb" sid="S"/></iq>`, peerJID))
+			p.pump(func() bool { return p.replies["pc"] != "" })
+		case "C": // local Close
+			toks = append(toks, "C")
+			done := make(chan struct{})
+			go func() { conn.Close(); close(done) }()
+			p.pump(func() bool {
+				select {
+				case <-done:
+					return true
+				default:
+					return false
+				}
+			})
+		case "p":
+			toks = append(toks, "P3")
+			p.feed(fmt.Sprintf(`<iq xmlns="jabber:client" type="set" id="d1" from="%s"><data xmlns="http://jabber.org/protocol/ibb" seq="0" sid="S">QUJD</data></iq>`, peerJID))
+			p.pump(func() bool { return p.replies["d1"] != "" })
+		}
+	}
+	p.sync()
+	for i := 0; i < k; i++ {
+		p.ctl.Release(fmt.Sprintf("rd%d", i), "ibb.read.wait")
+	}
+	returned, delivered, eofs := 0, 0, 0
+	deadline := time.After(watchdog)
+collect:
+	for returned < k {
+		select {
+		case x := <-ch:
+			returned++
+			delivered += x.n
+			if x.n == 0 && x.err == io.EOF {
+				eofs++
+			}
+		case <-deadline:
+			break collect
+		}
+	}
+	line := fmt.Sprintf("readers %d %s", k, common.Join(toks, ","))
+	r.Line(line, fmt.Sprintf("returned=%d delivered=%d eofs=%d", returned, delivered, eofs))
+	r.Case(line+events, true, "readers")
+	if returned < k {
+		r.Fail("deliver", "pending-reads-not-all-ended-by-close", []string{r.Prop + " " + line, "#events=" + events + " (c: the peer closes, C: local Close, p: a data packet)"},
+			fmt.Sprintf("%d goroutines were blocked in Read when the stream was closed; only %d returned", k, returned))
+	}
+}
